@@ -4,7 +4,6 @@ import (
 	"bytes"
 	"errors"
 	"fmt"
-	"regexp"
 	"strconv"
 	"strings"
 	"unicode"
@@ -20,7 +19,21 @@ type chr struct { //nolint:unused
 	width int
 }
 
-var matchIdentifier = regexp.MustCompile(`^[$_\p{L}][$_\p{L}\d}]*$`)
+// isIdentifierName reports whether literal (escapes already decoded) is an
+// IdentifierName by the same rules the scanner applies.
+func isIdentifierName(literal string) bool {
+	for i, chr := range literal {
+		switch {
+		case chr == '\\':
+			return false
+		case i == 0 && !isIdentifierStart(chr):
+			return false
+		case !isIdentifierPart(chr):
+			return false
+		}
+	}
+	return literal != ""
+}
 
 func isDecimalDigit(chr rune) bool {
 	return '0' <= chr && chr <= '9'
